@@ -276,6 +276,9 @@ def _expm(M):
     return E
 
 
+_NO_BRANCH = sympy.Float(-7.25e77)
+
+
 def eval_model(model, point, amounts='input'):
     """walk the statements in order.  Returns (defined: name -> value of its LAST assignment,
     signature of the compartmental system or None, env at the end).
@@ -295,8 +298,17 @@ def eval_model(model, point, amounts='input'):
     sig = None
     for s in model.statements:
         if isinstance(s, Assignment):
-            v = num(s.expression, env)
             k = _sname(s.symbol)
+            e = _sp(s.expression)
+            if isinstance(e, sympy.Piecewise) and e.args[-1][1] != sympy.true:
+                # a conditional assignment without otherwise branch (IF (cond) X = ... in abbreviated code):
+                # when no condition holds the assignment is not executed and X keeps its value; a variable
+                # that was never assigned is 0 in NM-TRAN abbreviated code
+                v = num(sympy.Piecewise(*e.args, (_NO_BRANCH, True)), env)
+                if v == float(_NO_BRANCH):
+                    v = env.get(k, 0.0)
+            else:
+                v = num(e, env)
             env[k] = v
             defined[k] = v
         elif isinstance(s, CompartmentalSystem):
@@ -486,8 +498,140 @@ _BASE_VARIANTS_QUICK = [
 def variant_model(base, variant):
     key = (base, variant)
     if key not in _MODEL_CACHE:
-        _MODEL_CACHE[key] = _variants()[variant](base_model(base))
+        if base == 'synth_pred':
+            ncov, neta = (int(x[3:]) for x in variant.split('_'))     # 'cov10_eta2'
+            _MODEL_CACHE[key] = synth_pred_model(ncov, neta)
+        elif variant.startswith('reassign:'):
+            _, sym, form = variant.split(':')                          # 'reassign:TVCL:pw0'
+            _MODEL_CACHE[key] = reassign_variant(base_model(base), sym, form)
+        else:
+            _MODEL_CACHE[key] = _variants()[variant](base_model(base))
     return _MODEL_CACHE[key]
+
+
+# -- models with an inserted re-assignment -----------------------------------------------------------
+#
+# A transformation typically inserts statements into an existing model whose other code is kept as it
+# is.  The variants below insert, directly after the last assignment of a symbol X, a new assignment
+# of the same symbol (or of a new symbol used by it).  The branch conditions compare a data column with
+# thresholds chosen between the values that column takes at the grid points, so that every branch
+# (the otherwise branch among them) is reached by some grid point.
+
+_REASSIGN_FORMS = ('pw0', 'pw0c', 'pwself', 'pw1', 'lin', 'new0')
+_NOT_COVARIATE_TYPES = ('id', 'idv', 'dv', 'dose', 'ss', 'ii', 'event', 'mdv', 'rate', 'duration')
+
+
+def branch_column(model):
+    """(data column, lower threshold, upper threshold): the first column that is not id / time / dv /
+    dosing information and takes >= 3 (else >= 2) distinct values at the quick-tier grid points"""
+    pts = make_points(model, _K_QUICK)
+    best = None
+    for col in model.datainfo:
+        if col.type in _NOT_COVARIATE_TYPES or col.name in ('CMT', 'MDV', 'EVID') or col.drop:
+            continue
+        vals = sorted({pt[col.name] for pt in pts})
+        n = len(vals)
+        if n >= 3:
+            a = (n - 1) // 3
+            b = max(a + 1, (2 * (n - 1)) // 3)     # a < b <= n - 2
+            lo, hi = round((vals[a] + vals[a + 1]) / 2, 4), round((vals[b] + vals[b + 1]) / 2, 4)
+            if vals[a] < lo < vals[a + 1] <= vals[b] < hi < vals[b + 1]:
+                return col.name, lo, hi
+        if n == 2 and best is None:
+            best = (col.name, round((vals[0] + vals[1]) / 2, 4), round(vals[1] + 1.0, 4))
+    if best is None:
+        raise ValueError('no data column with two values on the grid')
+    return best
+
+
+def reassign_targets(model):
+    """symbols assigned by the abbreviated code of the model: every assigned symbol except the amounts
+    and F (in a PREDPP model F is defined by PREDPP, not by the code)"""
+    return [n for n in _assigned_names(model) if not n.startswith('A_') and n != 'F']
+
+
+def reassign_variant(model, sym, form):
+    from pharmpy.basic import Expr
+    from pharmpy.model import Assignment
+
+    col, lo, hi = branch_column(model)
+    C = sympy.Symbol(col)
+    X = Expr.symbol(sym)
+    cexpr = Expr.symbol(col)
+    sts = model.statements
+    ind = max(i for i, s in enumerate(sts) if isinstance(s, Assignment) and _sname(s.symbol) == sym)
+    if form == 'pw0':        # complete definition with the literal 0 as otherwise branch
+        new = [Assignment.create(X, Expr.piecewise((X * 1.5, C > lo), (Expr.integer(0), True)))]
+    elif form == 'pw0c':     # three branches, no reference to the previous value
+        new = [Assignment.create(X, Expr.piecewise((cexpr / hi, C > hi), (Expr.float(0.5), C > lo),
+                                                   (Expr.integer(0), True)))]
+    elif form == 'pwself':   # conditional update: otherwise the previous value
+        new = [Assignment.create(X, Expr.piecewise((X * 1.5, C > lo), (X, True)))]
+    elif form == 'pw1':      # non-zero literal as otherwise branch
+        new = [Assignment.create(X, Expr.piecewise((X * 2, C > lo), (Expr.integer(1), True)))]
+    elif form == 'lin':      # unconditional update
+        new = [Assignment.create(X, X * 1.25 + 0.5)]
+    elif form == 'new0':     # a new indicator symbol (literal 0 otherwise) used by an update of X
+        ind_sym = Expr.symbol(sym + 'IND')
+        new = [Assignment.create(ind_sym, Expr.piecewise((Expr.float(1.5), C > lo), (Expr.integer(0), True))),
+               Assignment.create(X, X * (1 + ind_sym))]
+    else:
+        raise ValueError(form)
+    out = sts[: ind + 1]
+    for a in new:
+        out = out + a
+    out = out + sts[ind + 1:]
+    return model.replace(statements=out)
+
+
+# -- synthetic $PRED models with many covariates and etas ---------------------------------------------
+
+def synth_pred_model(ncov, neta):
+    """$PRED model with `ncov` covariates CV1.. (every one with its own coefficient and its own values in
+    the dataset) and `neta` etas (every one entering in its own way), two epsilons; dataset of 3
+    individuals x 2 records built here.  The individual prediction has ncov + 1 + neta free symbols."""
+    import pandas as pd
+
+    covs = [f'CV{i + 1}' for i in range(ncov)]
+    odd = ' + '.join(f'{0.01 * (i + 1):.3f}*{c}' for i, c in enumerate(covs) if i % 2 == 0)
+    even = ' + '.join(f'{0.02 * (i + 1):.3f}*{c}' for i, c in enumerate(covs) if i % 2 == 1)
+    nth = max(neta, 3)
+    lines = [f'COVA = 1 + {odd}' if odd else 'COVA = 1',
+             f'COVB = {even}' if even else 'COVB = 0',
+             'TVP1 = THETA(1)*COVA',
+             'TVP2 = THETA(2)*EXP(-COVB/10)',
+             'P1 = TVP1*EXP(ETA(1))',
+             'P2 = TVP2 + ETA(2)' if neta >= 2 else 'P2 = TVP2']
+    terms = ['P1*EXP(-P2*TIME/10)']
+    for k in range(3, nth + 1):
+        if k > neta:
+            lines.append(f'P{k} = THETA({k})')
+        elif k % 2:
+            lines.append(f'P{k} = THETA({k})*EXP(ETA({k}))')
+        else:
+            lines.append(f'P{k} = THETA({k})*(1 + ETA({k})) + 0.3*ETA({k})**2')
+        terms.append(f'P{k}*TIME/(TIME + {k})')
+    lines.append('IPR = ' + ' + '.join(terms))
+    lines.append('Y = IPR + IPR*EPS(1) + EPS(2)')
+    code = '$PROBLEM synthetic covariate model\n$DATA synth.csv IGNORE=@\n'
+    code += '$INPUT ID TIME DV ' + ' '.join(covs) + '\n$PRED\n' + '\n'.join(lines) + '\n'
+    inits = [2.5, 1.5, 0.8, 1.2, 0.6, 0.9, 1.1, 0.7]
+    for k in range(nth):
+        code += f'$THETA  (0,{inits[k % len(inits)]})\n'
+    for k in range(neta):
+        code += f'$OMEGA  {0.1 + 0.05 * k:.2f}\n'
+    code += '$SIGMA  0.05\n$SIGMA  0.2\n$ESTIMATION METHOD=1 INTERACTION\n'
+    m = pm().read_model_from_string(code)
+    rows = []
+    for i in range(1, 4):
+        for r in range(2):
+            row = {'ID': i, 'TIME': [0.5, 2.0][r] + 0.25 * i, 'DV': 1.0 + 0.1 * r + 0.01 * i}
+            for j, c in enumerate(covs):
+                row[c] = 1.0 + ((7 * j + 3 * i) % 11) + 0.25 * j + (0.5 * r if j % 2 else 0.0)
+            rows.append(row)
+    df = pd.DataFrame(rows, columns=['ID', 'TIME', 'DV'] + covs).astype('float64')
+    df['ID'] = df['ID'].astype('int64')
+    return m.replace(dataset=df)
 
 
 def _fid(fn):
@@ -669,7 +813,32 @@ def refactoring_cases(tier):
             if m.statements.ode_system is not None:
                 cases.append({'model': base, 'variant': variant, 'refactoring': 'solve_ode_system',
                               'arg': None})
+    # code generation (and the in-memory refactorings) on models with an inserted re-assignment
+    for base in _REASSIGN_BASES[tier]:
+        for sym in reassign_targets(base_model(base)):
+            for form in _REASSIGN_FORMS:
+                for r in _REASSIGN_REFACTORINGS[tier]:
+                    cases.append({'model': base, 'variant': f'reassign:{sym}:{form}', 'refactoring': r,
+                                  'arg': None})
+    # expression extractors and numeric evaluators
+    ncovs, netas = _SYNTH_BOUNDS[tier]
+    for ncov in ncovs:
+        for neta in netas:
+            cases.append({'model': 'synth_pred', 'variant': f'cov{ncov}_eta{neta}', 'refactoring': 'evaluators',
+                          'arg': None})
+    for base in ('pheno_linear', 'pheno', 'moxo'):
+        cases.append({'model': base, 'variant': 'none', 'refactoring': 'evaluators', 'arg': None})
     return cases
+
+
+_REASSIGN_BASES = {'quick': ('pheno', 'moxo'), 'thorough': ('pheno', 'moxo', 'pheno_linear')}
+_REASSIGN_REFACTORINGS = {
+    'quick': ('model_code_reparse', 'convert_model_generic_nonmem_reparse'),
+    'thorough': ('model_code_reparse', 'convert_model_generic_nonmem_reparse', 'convert_model_generic',
+                 'make_declarative', 'cleanup_model', 'mu_reference_model', 'greekify_model',
+                 'simplify_expression'),
+}
+_SYNTH_BOUNDS = {'quick': (range(0, 13), range(1, 5)), 'thorough': (range(0, 17), range(1, 7))}
 
 
 def _observables(model):
@@ -819,8 +988,230 @@ _K_QUICK = 6
 _K_THOROUGH = 12
 
 
+# -- expression extractors and numeric evaluators ---------------------------------------------------
+
+_FD_H = 1e-4
+
+
+def _eta_value(i, k):
+    """value of the k-th eta for the i-th individual"""
+    sign = -1.0 if (i + k) % 2 else 1.0
+    return sign * (0.05 + 0.07 * ((i + 2 * k) % 5) + 0.003 * k)
+
+
+def run_evaluator_case(case, tier='quick'):
+    """pharmpy's expression extractors and numeric evaluators against direct evaluation of the model
+    (reference interpreter `eval_model`, statement by statement) and central finite differences of it,
+    at K records of the dataset, for the initial estimates and for a second set of parameter values"""
+    import pandas as pd
+
+    P = pm()
+    K = _K_THOROUGH if tier == 'thorough' else _K_QUICK
+    m = variant_model(case['model'], case['variant'])
+    tag = f"{case['model']}/{case['variant']} evaluators"
+    fails = []
+    seen = set()
+
+    def fail(fn, clause, detail):
+        key = (_fid(fn), clause)
+        if key not in seen:
+            seen.add(key)
+            fails.append((key[0], clause, f'{tag}: {detail}'))
+
+    df = m.dataset
+    n = len(df)
+    pos = sorted({(j * (n - 1)) // max(1, K - 1) for j in range(K)})
+    sub = df.iloc[pos].reset_index(drop=True)
+    idcol = m.datainfo.id_column.name
+    ids = list(dict.fromkeys(sub[idcol].tolist()))
+    eta_names = list(m.random_variables.etas.names)
+    eps_names = list(m.random_variables.epsilons.names)
+    zero = zero_variance_rvs(m)
+    etas = pd.DataFrame({e: [0.0 if e in zero else _eta_value(i, k) for i in range(len(ids))]
+                         for k, e in enumerate(eta_names)}, index=ids)
+    y = _sname(list(m.dependent_variables)[0])
+    has_ode = m.statements.ode_system is not None
+    inits = {p.name: float(p.init) for p in m.parameters}
+    other = {p.name: _pval(p, i, 1) for i, p in enumerate(m.parameters)}
+    nontriv = False
+    cs = m.statements.ode_system
+    amount_names = [] if cs is None else sorted(_sname(c.amount) for c in cs._g.nodes if hasattr(c, 'amount'))
+
+    def point(pvals, r, eta_mode, over=None):
+        pt = dict(pvals)
+        for c in sub.columns:
+            try:
+                v = float(sub[c].iloc[r])
+            except (TypeError, ValueError):
+                continue
+            pt[c] = 0.0 if math.isnan(v) else v
+        for e in eta_names:
+            pt[e] = float(etas.loc[sub[idcol].iloc[r], e]) if eta_mode == 'ind' else 0.0
+        for e in eps_names:
+            pt[e] = 0.0
+        # a model with ODE system: only symbols in front of it are compared, the amounts just need a value
+        pt['t'] = 1.0
+        for a in amount_names:
+            pt[a] = 1.0
+        if over:
+            pt.update(over)
+        return pt
+
+    def direct_all(pt):
+        """values of all assigned symbols by the reference interpreter"""
+        try:
+            return eval_model(m, pt)[0]
+        except Undefined:
+            return {}
+
+    def direct(pt, name):
+        return direct_all(pt).get(name, float('nan'))
+
+    def fd(pt, name, wrt):
+        up, dn = dict(pt), dict(pt)
+        up[wrt] = pt[wrt] + _FD_H
+        dn[wrt] = pt[wrt] - _FD_H
+        return (direct(up, name) - direct(dn, name)) / (2 * _FD_H)
+
+    def call(fn, *a, **kw):
+        try:
+            return fn(*a, **kw)
+        except Exception as e:
+            fail(fn, 'completes without an exception on a valid model', _exc_detail(e))
+            return None
+
+    def numexpr(fn, expr, pt):
+        try:
+            return num(expr, pt)
+        except Undefined as e:
+            fail(fn, 'the extracted expression only contains parameters, random variables and data columns',
+                 str(e))
+            return None
+
+    for pname, pvals, parg in (('initial estimates', inits, None), ('second parameter set', other, dict(other))):
+        rows = range(len(sub))
+        # evaluate_expression: every assigned symbol in front of the ODE system that does not depend on
+        # random variables (the dataset has no columns for those)
+        from pharmpy.model import Assignment
+
+        names = []
+        for s in m.statements.before_odes:
+            if isinstance(s, Assignment) and isinstance(_sp(s.symbol), sympy.Symbol) and _sname(s.symbol) not in names:
+                names.append(_sname(s.symbol))
+        all0 = [direct_all(point(pvals, r, 'zero')) for r in rows]
+        all1 = [direct_all(point(pvals, r, 'ind', {e: 0.37 for e in eps_names})) for r in rows]
+        for nm in names:
+            ref0 = [d.get(nm, float('nan')) for d in all0]
+            ref1 = [d.get(nm, float('nan')) for d in all1]
+            if any(_isbad(a) or _isbad(b) or not close(a, b) for a, b in zip(ref0, ref1)):
+                continue
+            got = call(P.evaluate_expression, m, nm, parameter_estimates=parg)
+            if got is None:
+                continue
+            nontriv = True
+            for r in rows:
+                g = float(got.iloc[pos[r]])
+                if not close(ref0[r], g, rtol=1e-9):
+                    fail(P.evaluate_expression, 'evaluate_expression equals direct evaluation of the model at every '
+                         'data record', f'{nm} at record {pos[r]} ({pname}): direct evaluation {ref0[r]!r}, '
+                         f'evaluate_expression {g!r}; {_short_pt(point(pvals, r, "zero"))}')
+                    break
+        if has_ode:
+            # "This function currently only support models without ODE systems"
+            continue
+        ref_pred = [direct(point(pvals, r, 'zero'), y) for r in rows]
+        ref_ipred = [direct(point(pvals, r, 'ind'), y) for r in rows]
+        if any(_isbad(v) for v in ref_pred + ref_ipred):
+            continue
+        nontriv = True
+        # extractors: the expressions evaluated with the reference `num`
+        pe = call(P.get_population_prediction_expression, m)
+        ie = call(P.get_individual_prediction_expression, m)
+        ge = call(P.calculate_eta_gradient_expression, m)
+        he = call(P.calculate_epsilon_gradient_expression, m)
+        for r in rows:
+            p0, p1 = point(pvals, r, 'zero'), point(pvals, r, 'ind')
+            if pe is not None:
+                v = numexpr(P.get_population_prediction_expression, pe, p0)
+                if v is not None and not close(ref_pred[r], v, rtol=1e-9):
+                    fail(P.get_population_prediction_expression, 'population prediction expression equals direct '
+                         'evaluation of the model with etas and epsilons 0',
+                         f'record {pos[r]} ({pname}): direct {ref_pred[r]!r}, expression {v!r}')
+            if ie is not None:
+                v = numexpr(P.get_individual_prediction_expression, ie, p1)
+                if v is not None and not close(ref_ipred[r], v, rtol=1e-9):
+                    fail(P.get_individual_prediction_expression, 'individual prediction expression equals direct '
+                         'evaluation of the model with epsilons 0',
+                         f'record {pos[r]} ({pname}): direct {ref_ipred[r]!r}, expression {v!r}')
+            if ge is not None:
+                if len(ge) != len(eta_names):
+                    fail(P.calculate_eta_gradient_expression, 'one gradient expression per eta', f'{len(ge)}')
+                else:
+                    for e, g in zip(eta_names, ge):
+                        v = numexpr(P.calculate_eta_gradient_expression, g, p1)
+                        w = fd(p1, y, e)
+                        if v is not None and not _isbad(w) and not close(w, v, rtol=1e-5, atol=1e-7):
+                            fail(P.calculate_eta_gradient_expression, 'eta gradient expression equals the central '
+                                 'finite difference of the directly evaluated individual prediction',
+                                 f'd/d{e} at record {pos[r]} ({pname}): finite difference {w!r}, expression {v!r}')
+            if he is not None:
+                if len(he) != len(eps_names):
+                    fail(P.calculate_epsilon_gradient_expression, 'one gradient expression per epsilon', f'{len(he)}')
+                else:
+                    for e, g in zip(eps_names, he):
+                        v = numexpr(P.calculate_epsilon_gradient_expression, g, p1)
+                        w = fd(p1, y, e)
+                        if v is not None and not _isbad(w) and not close(w, v, rtol=1e-5, atol=1e-7):
+                            fail(P.calculate_epsilon_gradient_expression, 'epsilon gradient expression equals the '
+                                 'central finite difference of the directly evaluated observation at epsilon 0',
+                                 f'd/d{e} at record {pos[r]} ({pname}): finite difference {w!r}, expression {v!r}')
+        # numeric evaluators on the K records
+        pred = call(P.evaluate_population_prediction, m, parameters=parg, dataset=sub)
+        ipred = call(P.evaluate_individual_prediction, m, etas=etas, parameters=parg, dataset=sub)
+        ipred0 = call(P.evaluate_individual_prediction, m, parameters=parg, dataset=sub)
+        egrad = call(P.evaluate_eta_gradient, m, etas=etas, parameters=parg, dataset=sub)
+        hgrad = call(P.evaluate_epsilon_gradient, m, etas=etas, parameters=parg, dataset=sub)
+        for r in rows:
+            p1 = point(pvals, r, 'ind')
+            where = f'record {pos[r]} ({pname}; {len(sub.columns)} data columns, {len(eta_names)} etas)'
+            if pred is not None and not close(ref_pred[r], float(pred.iloc[r]), rtol=1e-9):
+                fail(P.evaluate_population_prediction, 'population prediction equals direct evaluation of the model '
+                     'with etas and epsilons 0 at every data record',
+                     f'{where}: direct {ref_pred[r]!r}, evaluator {float(pred.iloc[r])!r}')
+            if ipred is not None and not close(ref_ipred[r], float(ipred.iloc[r]), rtol=1e-9):
+                fail(P.evaluate_individual_prediction, 'individual prediction equals direct evaluation of the model '
+                     'with epsilons 0 at the given etas at every data record',
+                     f'{where}: direct {ref_ipred[r]!r}, evaluator {float(ipred.iloc[r])!r}; etas '
+                     f'{ {e: p1[e] for e in eta_names} }')
+            if ipred0 is not None and not close(ref_pred[r], float(ipred0.iloc[r]), rtol=1e-9):
+                fail(P.evaluate_individual_prediction, 'individual prediction without etas equals direct evaluation '
+                     'of the model with etas and epsilons 0',
+                     f'{where}: direct {ref_pred[r]!r}, evaluator {float(ipred0.iloc[r])!r}')
+            if egrad is not None:
+                for e in eta_names:
+                    w = fd(p1, y, e)
+                    col = f'dF/d{e}'
+                    g = float(egrad[col].iloc[r]) if col in egrad.columns else float('nan')
+                    if not _isbad(w) and not close(w, g, rtol=1e-5, atol=1e-7):
+                        fail(P.evaluate_eta_gradient, 'eta gradient equals the central finite difference of the '
+                             'directly evaluated individual prediction at every data record',
+                             f'{col} at {where}: finite difference {w!r}, evaluator {g!r}')
+            if hgrad is not None:
+                for e in eps_names:
+                    w = fd(p1, y, e)
+                    col = f'dY/d{e}'
+                    g = float(hgrad[col].iloc[r]) if col in hgrad.columns else float('nan')
+                    if not _isbad(w) and not close(w, g, rtol=1e-5, atol=1e-7):
+                        fail(P.evaluate_epsilon_gradient, 'epsilon gradient equals the central finite difference of '
+                             'the directly evaluated observation at epsilon 0 at every data record',
+                             f'{col} at {where}: finite difference {w!r}, evaluator {g!r}')
+    return {'nontrivial': nontriv, 'fails': fails}
+
+
 def run_refactoring_case(case, tier='quick'):
     """returns dict(nontrivial=bool, fails=[(fid, clause, detail)])"""
+    if case['refactoring'] == 'evaluators':
+        return run_evaluator_case(case, tier)
     K = _K_THOROUGH if tier == 'thorough' else _K_QUICK
     fails = []
     R = _refactorings()
@@ -1043,6 +1434,7 @@ def _pool_map(worker, items, procs=16):
 
 def _collect(results, replay_fn):
     fails = {}
+    also = {}
     nontriv = 0
     for case, res in results:
         if res.get('nontrivial'):
@@ -1051,6 +1443,12 @@ def _collect(results, replay_fn):
             if (fid, clause) not in fails:
                 fails[(fid, clause)] = {'fid': fid, 'clause': clause, 'detail': detail[:900], 'case': case,
                                         'replay_fn': replay_fn}
+            lst = also.setdefault((fid, clause), [])
+            if case not in lst:
+                lst.append(case)
+    for key, f in fails.items():
+        # every failing case of the clause, in enumeration order (see tools/BOUNDED_GUIDE.md, `also`)
+        f['also'] = also[key][:300]
     return nontriv, list(fails.values())
 
 
@@ -1218,7 +1616,42 @@ def extension_cases(tier):
                 for b in second:
                     for c in second:
                         cases.append({'family': 'error', 'model': mname, 'setters': [a, b, c]})
+    # error models on models with two dependent variables: each one in turn, both in sequence, one twice
+    for variant in (_TWO_DV_THOROUGH if tier == 'thorough' else _TWO_DV_QUICK):
+        for start in ('as_built', 'additive'):
+            singles = [[s, dv] for dv in (1, 2) for s in _DV_SETTERS]
+            for a in singles:
+                cases.append({'family': 'error_dv', 'model': 'pheno', 'variant': variant, 'start': start,
+                              'steps': [a]})
+            for a in singles:
+                for b in singles:
+                    cases.append({'family': 'error_dv', 'model': 'pheno', 'variant': variant, 'start': start,
+                                  'steps': [a, b]})
+            if tier == 'thorough':
+                for a in singles:
+                    for b in singles:
+                        for c in singles:
+                            if len({a[1], b[1], c[1]}) == 2:
+                                cases.append({'family': 'error_dv', 'model': 'pheno', 'variant': variant,
+                                              'start': start, 'steps': [a, b, c]})
+    # transit compartments: every sequence n -> m (and n alone)
+    top = 6 if tier == 'thorough' else 4
+    for mname, variant in _TRANSIT_MODELS:
+        for n in range(top + 1):
+            cases.append({'family': 'transit', 'model': mname, 'variant': variant, 'ns': [n]})
+        for n in range(top + 1):
+            for k in range(top + 1):
+                cases.append({'family': 'transit', 'model': mname, 'variant': variant, 'ns': [n, k]})
+        if tier == 'thorough':
+            for n in range(5):
+                for k in range(5):
+                    for j in range(5):
+                        cases.append({'family': 'transit', 'model': mname, 'variant': variant, 'ns': [n, k, j]})
     return cases
+
+
+_TRANSIT_MODELS = (('pheno', 'none'), ('moxo', 'none'), ('pheno', 'set_first_order_absorption'),
+                   ('moxo', 'remove_lag_time'), ('pheno', 'add_peripheral_compartment'))
 
 
 def _ext_variant(case):
@@ -2089,7 +2522,7 @@ def _merged_grid(prev, new, K):
     return pts
 
 
-def _check_error_step(name, prev, new, y, fail, K):
+def _check_error_step(name, prev, new, y, fail, K, dv=None):
     P = pm()
     pts = _merged_grid(prev, new, K)
     eps_prev = list(prev.random_variables.epsilons.names)
@@ -2197,8 +2630,10 @@ def _check_error_step(name, prev, new, y, fail, K):
     if name in ('additive', 'proportional', 'combined', 'proportional_nozp'):
         k = name.split('_')[0]
         try:
-            got = {'additive': P.has_additive_error_model(new), 'proportional': P.has_proportional_error_model(new),
-                   'combined': P.has_combined_error_model(new)}
+            kw = {} if dv is None else {'dv': dv}
+            got = {'additive': P.has_additive_error_model(new, **kw),
+                   'proportional': P.has_proportional_error_model(new, **kw),
+                   'combined': P.has_combined_error_model(new, **kw)}
         except Exception as e:
             fail('detectors complete without an undocumented exception', _exc_detail(e))
             return
@@ -2216,11 +2651,276 @@ def _check_error_step(name, prev, new, y, fail, K):
                     return
 
 
+# -- error models on models with two dependent variables ---------------------------------------------
+
+def _two_dv_variants():
+    P = pm()
+    return {
+        'direct_effect_linear': lambda m: P.set_direct_effect(m, 'linear'),
+        'effect_compartment_linear': lambda m: P.add_effect_compartment(m, 'linear'),
+        'metabolite': lambda m: P.add_metabolite(m),
+        'direct_effect_emax': lambda m: P.set_direct_effect(m, 'emax'),
+        'indirect_effect_linear': lambda m: P.add_indirect_effect(m, 'linear'),
+    }
+
+
+_TWO_DV_QUICK = ('direct_effect_linear', 'effect_compartment_linear', 'metabolite')
+_TWO_DV_THOROUGH = _TWO_DV_QUICK + ('direct_effect_emax', 'indirect_effect_linear')
+_DV_SETTERS = ('additive', 'proportional', 'proportional_nozp', 'combined')
+
+
+def _error_setters_dv():
+    P = pm()
+    return {
+        'additive': (P.set_additive_error_model, lambda m, dv: P.set_additive_error_model(m, dv=dv)),
+        'proportional': (P.set_proportional_error_model, lambda m, dv: P.set_proportional_error_model(m, dv=dv)),
+        'proportional_nozp': (P.set_proportional_error_model,
+                              lambda m, dv: P.set_proportional_error_model(m, dv=dv, zero_protection=False)),
+        'combined': (P.set_combined_error_model, lambda m, dv: P.set_combined_error_model(m, dv=dv)),
+    }
+
+
+def two_dv_model(base, variant, start):
+    """model with two dependent variables; start='as_built' (the error models the transformation gives)
+    or 'additive' (additive error model set on either dependent variable)"""
+    key = ('two_dv', base, variant, start)
+    if key not in _MODEL_CACHE:
+        k0 = ('two_dv', base, variant, 'as_built')
+        if k0 not in _MODEL_CACHE:
+            _MODEL_CACHE[k0] = _two_dv_variants()[variant](base_model(base))
+        m = _MODEL_CACHE[k0]
+        if start == 'additive':
+            for dv in sorted(m.dependent_variables.values()):
+                m = pm().set_additive_error_model(m, dv=dv)
+        _MODEL_CACHE[key] = m
+    return _MODEL_CACHE[key]
+
+
+def _run_error_dv(case, K):
+    S = _error_setters_dv()
+    try:
+        m = two_dv_model(case['model'], case['variant'], case['start'])
+    except Exception as e:
+        return {'nontrivial': False, 'fails': [], 'note': f'start model not buildable: {e!r}'}
+    ynames = {v: _sname(k) for k, v in m.dependent_variables.items()}
+    tag = (f"{case['model']}/{case['variant']} (start: {case['start']}) "
+           + ' ; '.join(f'{n}(dv={dv})' for n, dv in case['steps']))
+    fails = []
+    nontriv = False
+    for step, (name, dv) in enumerate(case['steps']):
+        fn, run = S[name]
+        fail = _Fails(_fid(fn), tag + f' (step {step + 1}: {name}, dv={dv})')
+        prev = m
+        snap = _snapshot(prev)
+        try:
+            m = run(prev, dv)
+        except _DOC_EXC:
+            break        # refused (e.g. set_combined_error_model only handles the first dependent variable)
+        except Exception as e:
+            fail('completes without an undocumented exception', _exc_detail(e))
+            fails.extend(fail.items)
+            break
+        if not all(a == b for a, b in zip(snap, _snapshot(prev))):
+            fail('input model is not modified', 'input model changed')
+        if step == len(case['steps']) - 1:
+            nontriv = True
+            if {v: _sname(k) for k, v in m.dependent_variables.items()} != ynames:
+                fail('the dependent variables of the model are not changed',
+                     f'{prev.dependent_variables} -> {m.dependent_variables}')
+            else:
+                _check_error_step(name, prev, m, ynames[dv], fail, K, dv=dv)
+                _check_other_dvs(prev, m, [y for d, y in ynames.items() if d != dv], fail, K)
+        fails.extend(fail.items)
+    return {'nontrivial': nontriv, 'fails': fails}
+
+
+def _check_other_dvs(prev, new, others, fail, K):
+    """frame condition: a dependent variable that was not addressed keeps its prediction and the weights of
+    its epsilons (as a multiset: epsilons may be renamed or renumbered)"""
+    for pt in _merged_grid(prev, new, K):
+        for y in others:
+            try:
+                f0, w0, full0, _ = _y_parts(prev, pt, y)
+            except (Undefined, KeyError):
+                continue
+            if _isbad(f0):
+                continue
+            try:
+                f1, w1, full1, _ = _y_parts(new, pt, y)
+            except (Undefined, KeyError) as e:
+                fail('the other dependent variables keep their prediction and error model', f'{y}: {e!r}')
+                return
+            nz0 = [w for w in w0.values() if _isbad(w) or w != 0]
+            nz1 = [w for w in w1.values() if _isbad(w) or w != 0]
+            if not close(f0, f1, rtol=1e-7) or not _match_multiset(nz0, nz1):
+                fail('the other dependent variables keep their prediction and error model',
+                     f'{y}: prediction {f0!r} -> {f1!r}, weights of the epsilons {sorted(nz0)} -> {sorted(nz1)} at '
+                     f'{_short_pt(pt)}')
+                return
+
+
+# -- transit compartments ------------------------------------------------------------------------------
+
+def transit_chain(model, target):
+    """reference, read from the graph: the compartments on the path from the compartment that receives
+    the (first) dose to the compartment `target`, each with exactly one outflow.  None if the path does
+    not exist.  These are the transit compartments in front of `target`."""
+    from pharmpy.model import Compartment
+
+    cs = model.statements.ode_system
+    comps = [c for c in cs._g.nodes if isinstance(c, Compartment)]
+    dosed = sorted((c for c in comps if c.doses), key=lambda c: c.name)
+    if not dosed:
+        return None
+    if any(c.name == target for c in dosed):
+        return []
+    chain = []
+    c = dosed[0]
+    while c.name != target:
+        outs = [v for _, v in cs._g.out_edges(c)]
+        if len(outs) != 1 or not isinstance(outs[0], Compartment) or len(chain) > 50:
+            return None
+        chain.append((c.name, outs[0].name))
+        c = outs[0]
+    return chain
+
+
+def _transit_state(model, target, pts):
+    """(chain, [per point: (MDT value or None, [rate of every chain flow])]) by the reference interpreter"""
+    chain = transit_chain(model, target)
+    if chain is None:
+        return None, None
+    vals = []
+    for pt in pts:
+        d, sig, _ = eval_model(model, pt)
+        vals.append((d.get('MDT'), [sig['flows'][e] for e in chain]))
+    return chain, vals
+
+
+def _transit_sound(n, chain, vals):
+    """does the model satisfy the contract for n transit compartments?"""
+    if chain is None or len(chain) != n:
+        return False
+    for mdt, rates in vals:
+        if n and (mdt is None or any(not close(r, n / mdt, rtol=1e-9) for r in rates)):
+            return False
+    return True
+
+
+def _run_transit(case, K):
+    P = pm()
+    fn = P.set_transit_compartments
+    m = _ext_variant(case)
+    cs0 = m.statements.ode_system
+    # the compartment the dose enters in the start model: transit compartments are put in front of it
+    target = transit_chain(m, cs0.central_compartment.name)
+    target = cs0.central_compartment.name if not target else target[0][0]
+    tag = f"{case['model']}/{case.get('variant', 'none')} set_transit_compartments " + ' ; '.join(map(str, case['ns']))
+    fail = _Fails(_fid(fn), tag)
+    nontriv = False
+    count = 0
+    for step, n in enumerate(case['ns']):
+        prev, nprev = m, count
+        last = step == len(case['ns']) - 1
+        snap = _snapshot(prev) if last else None
+        try:
+            m = fn(prev, n)
+        except _DOC_EXC:
+            break        # refused
+        except Exception as e:
+            fail('completes without an undocumented exception', _exc_detail(e))
+            break
+        count = n
+        if not last:
+            continue
+        if not all(a == b for a, b in zip(snap, _snapshot(prev))):
+            fail('input model is not modified', 'input model changed')
+        pts = []
+        for x, z in zip(_grid(m, K), _grid(prev, K)):
+            q = dict(z)
+            q.update(x)
+            pts.append(q)
+        # precondition: the model before the last request satisfies the contract for its own number of
+        # transit compartments (a defect of an earlier request is reported by the shorter sequence)
+        try:
+            chain0, vals0 = _transit_state(prev, target, pts)
+        except Undefined:
+            break
+        if not _transit_sound(nprev, chain0, vals0):
+            break
+        nontriv = True
+        kind = 'first' if nprev == 0 else 'increase' if n > nprev else 'decrease' if n < nprev else 'same'
+        kind = f'[{kind}] '
+        try:
+            chain, vals = _transit_state(m, target, pts)
+        except Undefined:
+            # the result uses a symbol whose definition was removed (lag time of a depot that is kept): the
+            # structural contract C08 reports this ('every symbol used in the result is defined'); the model
+            # has no function that could be compared with the documented one
+            nontriv = False
+            break
+        if chain is None or len(chain) != n:
+            fail(kind + 'the dose passes through exactly the requested number of transit compartments before it '
+                 'reaches the compartment it entered before',
+                 f'requested {n} (had {nprev}), chain in front of {target}: {chain}')
+            break
+        try:
+            det = P.get_number_of_transit_compartments(m)
+        except Exception as e:
+            fail(kind + 'get_number_of_transit_compartments reports the number of transit compartments of the '
+                 'compartment graph', _exc_detail(e), fid=_fid(P.get_number_of_transit_compartments))
+            det = None
+        # documented (find_transit_compartments): a single compartment in front of the central compartment
+        # "cannot be distinguished from one depot compartment" and is defined to be a depot, not a transit
+        want_det = 0 if n == 1 and target == m.statements.ode_system.central_compartment.name else n
+        if det is not None and det != want_det:
+            fail(kind + 'get_number_of_transit_compartments reports the number of transit compartments of the '
+                 'compartment graph', f'graph: {n} compartments {[a for a, _ in chain]} in front of '
+                 f'{target}, i.e. {want_det} transit compartments; detector: {det}',
+                 fid=_fid(P.get_number_of_transit_compartments))
+        for (mdt, rates), (mdt0, _), pt in zip(vals, vals0, pts):
+            if n > 0:
+                if mdt is None:
+                    fail(kind + 'every transit compartment has the rate n/MDT: the mean transit time is MDT',
+                         'MDT is not assigned')
+                    break
+                mtt = sum(1 / r for r in rates)
+                if any(not close(r, n / mdt, rtol=1e-9) for r in rates) or not close(mtt, mdt, rtol=1e-9):
+                    fail(kind + 'every transit compartment has the rate n/MDT: the mean transit time is MDT',
+                         f'{nprev} -> {n} transit compartments: MDT = {mdt!r}, n/MDT = {n / mdt!r}, rates along the '
+                         f'chain {dict(zip([a for a, _ in chain], rates))}, mean transit time {mtt!r}')
+                    break
+                if mdt0 is not None and not close(mdt, mdt0, rtol=1e-9):
+                    fail(kind + 'the mean transit time MDT keeps its value when the number of transit compartments '
+                         'is changed', f'MDT {mdt0!r} before, {mdt!r} after at {_short_pt(pt)}')
+                    break
+        # behind the chain nothing changes
+        try:
+            for pt in pts:
+                d0, s0, _ = eval_model(prev, pt)
+                d1, s1, _ = eval_model(m, pt)
+                inchain = {a for a, _ in chain0} | {a for a, _ in chain}
+                f0 = {e: r for e, r in s0['flows'].items() if e[0] not in inchain}
+                f1 = {e: r for e, r in s1['flows'].items() if e[0] not in inchain}
+                if set(f0) != set(f1) or any(not close(f0[e], f1[e]) for e in f0 if not _isbad(f0[e])):
+                    fail('flows behind the transit compartments are unchanged',
+                         f'{f0} -> {f1} at {_short_pt(pt)}')
+                    break
+                for y in _observables(prev)[0]:
+                    if y in d0 and not _isbad(d0[y]) and (y not in d1 or not close(d0[y], d1[y], rtol=1e-7)):
+                        fail('for given amounts the dependent variables are unchanged',
+                             f'{y}: {d0[y]!r} -> {d1.get(y)!r} at {_short_pt(pt)}')
+                        break
+        except Undefined as e:
+            fail('every symbol used is defined', str(e))
+    return {'nontrivial': nontriv, 'fails': fail.items}
+
+
 # -- driver ------------------------------------------------------------------------------------------
 
 _EXT_RUNNERS = {'cov': _run_cov, 'iiv': _run_iiv, 'remove_iiv': _run_remove_iiv, 'iov': _run_iov,
                 'remove_iov': _run_remove_iov, 'transform': _run_transform, 'allometry': _run_allometry,
-                'error': _run_error}
+                'error': _run_error, 'error_dv': _run_error_dv, 'transit': _run_transit}
 
 
 def run_extension_case(case, tier='quick'):
@@ -2241,6 +2941,17 @@ def bounded_extensions(tier):
     pm()
     for b in ('pheno', 'moxo'):
         base_model(b)
+    for mname, variant in _TRANSIT_MODELS:
+        try:
+            variant_model(mname, variant)
+        except Exception:
+            pass
+    for variant in (_TWO_DV_THOROUGH if tier == 'thorough' else _TWO_DV_QUICK):
+        for start in ('as_built', 'additive'):
+            try:
+                two_dv_model('pheno', variant, start)
+            except Exception:
+                pass
     cases = extension_cases(tier)
     results = _pool_map(_extension_worker, [(c, tier) for c in cases])
     nontriv, fails = _collect(results, 'bounded_extensions_replay')
@@ -2254,7 +2965,12 @@ def bounded_extensions(tier):
                  'operations); add_iiv: 3 parameters x 5 templates; remove_iiv; add_iov: 2 occasion columns x 4 '
                  'parameter lists x 3 distributions; 3 eta transformations x all eta selections; add_allometry: 5 '
                  'models x 2 reference values x 3 parameter lists x fixed; error models: all sequences of <= '
-                 f'{3 if tier == "thorough" else 2} of 12 setters}} = {fam}; each at {K} grid points plus the reference/category/cutoff points',
+                 f'{3 if tier == "thorough" else 2} of 12 setters; error models on pheno with a second dependent variable '
+                 f'({", ".join(_TWO_DV_THOROUGH if tier == "thorough" else _TWO_DV_QUICK)}; as built and with additive '
+                 f'error on both): all sequences of <= {3 if tier == "thorough" else 2} of (additive, proportional with and '
+                 f'without zero protection, combined) x (dv 1, dv 2); set_transit_compartments: 5 models x all '
+                 f'sequences n, n -> m{", n -> m -> k (<= 4)" if tier == "thorough" else ""} with 0 <= n, m <= '
+                 f'{6 if tier == "thorough" else 4}}} = {fam}; each at {K} grid points plus the reference/category/cutoff points',
         'samples': [repr(cases[i]) for i in (0, len(cases) // 2, len(cases) - 1)],
         'fails': fails,
     }
